@@ -66,4 +66,16 @@ PROPS["C11"] = {
     "explanation": "phase-level model of the hub",
 }
 
+PROPS["C10"] = {
+    "proof_files": ["Proofs/Hub.v", "Proofs/HubLocks.v", "Proofs/Serv.v"],
+    "gen_files": ["Gen/HubLocks.v"],
+    "corr": ["C10", "C11"],
+    "trusted_base": ["tie to the code: CORRESPONDENCE - Model/Serv.v (frame handling on top of Model/Hub.v) is hand-written; scripts are run end to end against the real thruserv binary over WebSocket and every client's receive log is compared with the model in coqc; the hub layer is additionally tied as in C11"],
+    "assumptions": ["TCP/WebSocket deliver what the server writes, in order", "sequential scripts run to quiescence; concurrency inside the hub is covered by C11's phase-level model", "'not lost while the recipient keeps reading' is formalised as: an accepted message is refused only when 256 envelopes are already buffered for that recipient"],
+    "level_text": "Routing theorems (session isolation, exact addressee, broadcast = everybody else in the session, unknown addressee -> error to the author only, per-connection FIFO without duplication, loss only when the recipient's buffer is full) on the hub/server model for all histories; model compared with the real thruserv binary end to end.",
+    "level_note": "Trusted: Coq kernel, harness. Modelled not verified: gorilla/websocket, net/http, JSON decoding of envelopes.",
+    "technique": "Coq proofs over hub/server routing model + end-to-end differential test against the thruserv binary",
+    "explanation": "routing model",
+}
+
 NOT_APPLICABLE = {}
